@@ -102,7 +102,7 @@ SYNTAX_INVS = ['InvFoldMeans', 'InvUnsat', 'InvOrder', 'InvPrintRoundTrip', 'Inv
 def mc_syntax(mode, name, quick_of, size='small', thorough_size=None, tiers=('quick', 'thorough'), caseop='rparse'):
     return dict(name=name, module='MC_Syntax', constants=dict(Mode=mode, Size=size, Emit=True, CaseOp=caseop, Slice='SEED', Of=quick_of),
                 thorough=dict(Of=1, Size=thorough_size or size), invariants=SYNTAX_INVS, tiers=tiers)
-SYNTAX_RULE = ('cases = range texts rendered from syntax trees: every single comparator over numbers {0,1,2}, x/X/*, absent components, tags {none,-0,-a} '
+SYNTAX_RULE = ('cases = range texts rendered from syntax trees: every single comparator over numbers {0,1,2}, x/X/*, absent components, tags {none,-0,-a} (also after a partial with a wildcard: `1.x.2-a`, `1.2.x-0`) '
                'under 9 operators and 8 spelling knobs; every hyphen pair of those partials; space-joined pairs, `||` pairs and garbage tokens in every position '
                'over numbers {0,1} (quick tier: a seeded 1/k slice of the first component; thorough: all); + seeded random trees with components up to MAX_SAFE_INTEGER, '
                '1-4 comparators, 1-3 alternatives, every spelling knob; each text is parsed by the crate and satisfies() is compared with the npm meaning on the probe set '
